@@ -537,6 +537,9 @@ def main(run):
             if fmt == "kitti":
                 force.update({"align": False, "correct_scale": False})
             k_cli(run, run.case("cli", i, fmt=fmt, force=force, unequal=True, odd_names=(i % 5 == 1)))
+    for i in run.mine({"quick": 16, "thorough": 160}[run.tier]):
+        # TUM estimates that start with free-text comment lines (commas, colons, quotes) in every format's sub-command
+        k_cli(run, run.case("cli", 10**6 + i, tool="ape", fmt=["euroc", "tum"][i % 4 == 3], header_comment=True))
     for i in run.mine({"quick": 120, "thorough": 3000}[run.tier]):
         KINDS["write_archive"](run, run.case("write_archive", i))
     # malformed: defect x format x every row/column position of small files
